@@ -140,6 +140,11 @@ def job_audio(j):
         rich = mpq_io.read_chk_from_mpq(str(out))
         trig = next(s for s in rich.chk_sections if isinstance(s, RichTrigSection))
         acts = [PlayWavAction(_path_to_wav_in_mpq="staredit\\wav\\" + f.name) for f in files]
+        # ... and an explicit duration (0 and the u32 bounds included) is written as given
+        explicit = [0, 1, 4144, 2 ** 32 - 1][: max(1, 8 - len(files))]
+        acts_explicit = [PlayWavAction(_path_to_wav_in_mpq="staredit\\wav\\" + files[0].name, _duration_ms=d) for d in explicit] \
+            if files else []
+        acts = acts + acts_explicit
         t = RichTrigger(_conditions=[AlwaysCondition()], _actions=acts, _players={PlayerId.PLAYER_1})
         rich2 = RichChkEditor().replace_chk_section(RichTrigSection(_triggers=trig.triggers + [t]), rich)
         out2 = work / "out2.scx"
@@ -154,6 +159,9 @@ def job_audio(j):
                 problems.append(f"PlayWav duration {a['_duration_ms']} != true duration {true_duration_ms(f)} of {f.name}")
             if a["_path_to_wav_in_mpq"] != "staredit\\wav\\" + f.name:
                 problems.append("PlayWav path does not resolve to the imported file")
+        for d, a in zip(explicit if files else [], v2.triggers()[-1]["actions"][len(files): len(files) + len(explicit)]):
+            if not isinstance(a, dict) or a.get("type") != 8 or a["_duration_ms"] != d:
+                problems.append(f"PlayWav with explicit duration {d} ms is saved as {a.get('_duration_ms') if isinstance(a, dict) else a}")
         return {"problems": problems, "members": len(mo)}
     finally:
         shutil.rmtree(work, ignore_errors=True)
